@@ -102,6 +102,11 @@ def stub_modules():
         where=J.where,
         broadcast_to=J.broadcast_to,
         floor=J.floor,
+        ceil=J.ceil,
+        minimum=J.minimum,
+        maximum=J.maximum,
+        abs=J.absolute,
+        absolute=J.absolute,
         clip=J.clip,
         prod=J.prod,
         sum=J.reduce_sum,
